@@ -96,7 +96,7 @@ func (e *Env) Call(site string) {
 		case "panic-err":
 			panic(ScriptError(90 + f.Arg))
 		case "panic-str":
-			panic(fmt.Sprintf("injected-panic-%d", f.Arg))
+			panic(fmt.Sprintf("injected-panic-%d (100%% sure, 5%%d)", f.Arg)) // a message that is not a format string
 		}
 	}
 	e.Yield()
@@ -613,7 +613,18 @@ func init() {
 	regc(&CombDef{Name: "TakeUntil", Min: 2, Max: 2, Build: func(e *Env, s []ro.Observable[int]) ro.Observable[int] { return ro.TakeUntil[int](s[1])(s[0]) }})
 	regc(&CombDef{Name: "SkipUntil", Min: 2, Max: 2, Build: func(e *Env, s []ro.Observable[int]) ro.Observable[int] { return ro.SkipUntil[int](s[1])(s[0]) }})
 	regc(&CombDef{Name: "BufferWhen", Min: 2, Max: 2, Build: func(e *Env, s []ro.Observable[int]) ro.Observable[int] {
-		return ro.Flatten[int]()(ro.BufferWhen[int](s[1])(s[0]))
+		// the consumer owns the buffers it is handed: it may append to them, at once or later (a trailer
+		// added to the previous batch when the next one arrives), writing into their spare capacity
+		var prev []int
+		own := ro.Map(func(b []int) []int {
+			if prev != nil {
+				_ = append(prev, -9)
+			}
+			_ = append(b, -7)
+			prev = b
+			return b
+		})
+		return ro.Flatten[int]()(own(ro.BufferWhen[int](s[1])(s[0])))
 	}})
 	regc(&CombDef{Name: "WindowWhen", Min: 2, Max: 2, Build: func(e *Env, s []ro.Observable[int]) ro.Observable[int] {
 		return ro.MergeAll[int]()(ro.WindowWhen[int](s[1])(s[0]))
